@@ -101,6 +101,7 @@ type env struct {
 	socks   []*net.UDPConn
 	coq     []string
 	nextPay int
+	lost    int // scenarios aborted because the owner's datagram was not relayed
 }
 
 func udpHeader(bad string) []byte {
@@ -218,9 +219,27 @@ func (e *env) runScenario(sc Scenario) {
 			c.Fail("send-failed", err.Error(), sc)
 			return false
 		}
-		if !m.waitRelayed(sp, 5*time.Second) {
+		if !m.waitRelayed(sp, 3*time.Second) {
+			// still evaluate what did get relayed before reporting the lost datagram
+			m.mu.Lock()
+			got := append([]string{}, m.relayed[seenRelayed:]...)
+			m.mu.Unlock()
+			for _, s := range pending {
+				src := e.socks[s.sender].LocalAddr().(*net.UDPAddr)
+				for _, p := range got {
+					if p == s.payload && !isOwner(src) {
+						c.Fail("datagram-from-non-owner-relayed",
+							fmt.Sprintf("datagram from %s was relayed into the mesh; the association belongs to %s (control connection from %s, request address %q)", src, ownerIP, sc.ControlIP, sc.ReqIP), sc)
+					}
+				}
+			}
+			if dst := assoc.VerifActualClientAddr(); dst != nil && !isOwner(dst) {
+				c.Fail("reply-sent-to-non-owner",
+					fmt.Sprintf("the recorded client address (destination of replies) is %s; the association belongs to %s (control connection from %s, request address %q)", dst, ownerIP, sc.ControlIP, sc.ReqIP), sc)
+			}
 			c.Fail("owner-datagram-not-relayed",
-				fmt.Sprintf("a well-formed datagram from the association's owner %s was not relayed within 5 s", e.socks[ownerSock].LocalAddr()), sc)
+				fmt.Sprintf("a well-formed datagram from the association's owner %s was not relayed within 3 s", e.socks[ownerSock].LocalAddr()), sc)
+			e.lost++
 			return false
 		}
 		m.mu.Lock()
@@ -386,8 +405,9 @@ func (e *env) runPipeScenario(sc Scenario, m *mesh) {
 		e.nextPay++
 		sp := fmt.Sprintf("sync-%d", e.nextPay)
 		e.socks[first].WriteToUDP(append(udpHeader(""), sp...), relay)
-		if !m.waitRelayed(sp, 5*time.Second) {
-			c.Fail("first-sender-datagram-not-relayed", "owner unknown: a well-formed datagram from the first sender was not relayed within 5 s", sc)
+		if !m.waitRelayed(sp, 3*time.Second) {
+			c.Fail("first-sender-datagram-not-relayed", "owner unknown: a well-formed datagram from the first sender was not relayed within 3 s", sc)
+			e.lost++
 			return false
 		}
 		m.mu.Lock()
@@ -597,8 +617,11 @@ func main() {
 			run(sc)
 		}
 		n := c.N(150, 4000)
-		for i := 0; i < n; i++ {
+		for i := 0; i < n && e.lost < 4; i++ {
 			run(genScenario(c.Rand.Fork(), i))
+		}
+		if e.lost >= 4 {
+			c.Note("stopped early: the owner's datagrams are not relayed (%d scenarios aborted)", e.lost)
 		}
 	}
 	var sb strings.Builder
